@@ -328,6 +328,80 @@ def build(tier, rng):
         outs.append(o.stdout.strip().splitlines()[-1] if o.stdout.strip() else "ERR " + o.stderr[-200:])
     g.check(len(outs) == 2 and outs[0] == outs[1] and not outs[0].startswith("ERR"), "import-order:scheme-lists-differ", "scheme lists depend on whether passlib.hosts or passlib.apache is imported first", {"apache_first": outs[0][:300], "hosts_first": outs[1][:300] if len(outs) > 1 else None})
     groups.append(done(g))
+    # ---- the first hash a shipped context hands out in a fresh interpreter belongs to its default scheme and verifies there
+    g = Group("first-use-of-every-context", "CryptContext.hash/verify (lazy backend loading)", "fresh interpreter per exported context of passlib.apps / passlib.hosts (default scheme usable on this host; costs as shipped): "
+              "the first hash made is attributed to the context's default scheme and verifies the password (and not another one) through the same context")
+    prog3 = (
+        "import warnings, json, sys; warnings.simplefilter('ignore')\n"
+        "import importlib\n"
+        "mod = importlib.import_module(sys.argv[1]); ctx = getattr(mod, sys.argv[2])\n"
+        "out = {}\n"
+        "try:\n"
+        "    kw = {'user': 'u'} if 'user' in (getattr(ctx.handler(), 'context_kwds', ()) or ()) else {}\n"
+        "    h = ctx.hash('pw', **kw)\n"
+        "    out = {'default': ctx.default_scheme(), 'identified': ctx.identify(h), 'ok': ctx.verify('pw', h, **kw), 'wrong': ctx.verify('pw2', h, **kw)}\n"
+        "except Exception as e: out = {'error': type(e).__name__ + ': ' + str(e)[:100]}\n"
+        "print(json.dumps(out))"
+    )
+    from concurrent.futures import ThreadPoolExecutor
+
+    targets = []
+    import passlib.apps as apps
+    import passlib.hosts as hosts
+    from passlib.context import CryptContext
+
+    for modname, mod in (("passlib.apps", apps), ("passlib.hosts", hosts)):
+        for k, v in sorted(vars(mod).items()):
+            if isinstance(v, CryptContext) and not k.startswith("_"):
+                try:
+                    d = v.default_scheme()
+                    if usable(registry.get_crypt_handler(d)) and not getattr(registry.get_crypt_handler(d), "is_disabled", False):
+                        targets.append((modname, k))
+                except Exception:  # noqa: BLE001
+                    pass
+
+    def _run3(t):
+        o = subprocess.run([_sys.executable, "-c", prog3, t[0], t[1]], capture_output=True, text=True, timeout=600)
+        try:
+            return t, json.loads(o.stdout.strip().splitlines()[-1])
+        except Exception:  # noqa: BLE001
+            return t, {"error": (o.stderr or o.stdout)[-200:]}
+
+    with ThreadPoolExecutor(8) as ex:
+        for t, res in ex.map(_run3, targets):
+            g.case(t)
+            w = {"context": ".".join(t), "child": res}
+            if not g.check("error" not in res, f"context-first-use:{t[1]}:error", "first use of the context in a fresh interpreter raised", w):
+                continue
+            g.check(res["identified"] == res["default"], f"context-first-use:{t[1]}:attribution", "the first hash is not attributed to the default scheme", w)
+            g.check(res["ok"] is True and res["wrong"] is False, f"context-first-use:{t[1]}:verify", "the first hash handed out by the context does not verify its password through the context", w)
+    groups.append(done(g))
+    # ---- a plaintext-like entry given as bytes in a legacy 8-bit encoding is still attributed and verified
+    g = Group("legacy-encoded-plaintext", "to_unicode_for_identify / CryptContext.identify", "contexts whose list ends in a catch-all (htpasswd_context, ldap_context, ldap_nocrypt_context, custom [md5_crypt, plaintext]) x passwords "
+              "with non-ASCII characters given as latin-1 / cp1252 bytes: identify names the catch-all scheme, verify(bytes, bytes) is True, no exception")
+    legacy = []
+    try:
+        import passlib.apache as _ap
+        legacy.append(("apache.htpasswd_context", _ap.htpasswd_context, "plaintext", lambda b: b))
+    except Exception:  # noqa: BLE001
+        pass
+    for nm in ("ldap_context", "ldap_nocrypt_context"):
+        if hasattr(apps, nm):
+            legacy.append((f"apps.{nm}", getattr(apps, nm), "ldap_plaintext", lambda b: b))
+    legacy.append(("custom[md5_crypt,plaintext]", CryptContext(["md5_crypt", "plaintext"]), "plaintext", lambda b: b))
+    for label, ctx, want, mk in legacy:
+        for pwb in (b"p\xe4ssw\xf6rd", b"caf\xe9", b"\xff\xfe", b"na\xefve \x80uro"):
+            g.case((label, pwb.hex()))
+            w = {"context": label, "hash_bytes_hex": pwb.hex()}
+            o = outcome(ctx.identify, mk(pwb))
+            g.check(o == ("ok", want), f"legacy-bytes:{want}:identify", "a legacy-encoded plaintext entry is not attributed to the catch-all scheme", dict(w, outcome=repr(o)[:160]))
+            if "encoding" in (getattr(registry.get_crypt_handler(want), "context_kwds", ()) or ()):
+                # the scheme reads the entry with the encoding the caller names (e.g. a latin-1 htpasswd file)
+                o = outcome(ctx.verify, pwb, mk(pwb), encoding="latin-1")
+                g.check(o == ("ok", True), f"legacy-bytes:{want}:verify", "a legacy-encoded plaintext entry does not verify its own bytes", dict(w, outcome=repr(o)[:160]))
+                o = outcome(ctx.verify, pwb + b"x", mk(pwb), encoding="latin-1")
+                g.check(o == ("ok", False), f"legacy-bytes:{want}:verify-wrong", "another password verifies against a legacy-encoded plaintext entry", dict(w, outcome=repr(o)[:160]))
+    groups.append(done(g))
     # ---- legacy spellings are look-up aliases only: they never become registry names
     g = Group("alias-lookups-leave-the-registry-alone", "registry.get_crypt_handler", "fresh interpreter: every registry name looked up twice under its upper-case / hyphenated spelling (before and after the canonical "
               "look-up): list_crypt_handlers() is unchanged, every listed name loads a hasher of that name, apps.master_context still builds")
